@@ -171,9 +171,13 @@ def parseParts (p : Parser) (s : Proj) : List Spec → Parser × Except ParseErr
     | (p, .ok s) => parseParts p s rest
     | (p, .error e) => (p, .error e)
 
-/-- `ProjectionParser.Parse` on a parsed expression. -/
+/-- `ProjectionParser.Parse` on a parsed expression: the parts are walked by `parseParts`; when one
+of them is rejected the parser state saved before the walk (`configKeys`, `len(fullnameKeys)`,
+`haveConfig`, `haveFullname`) is restored, so a rejected expression leaves no trace. -/
 def Parser.parse (p : Parser) (specs : List Spec) : Parser × Except ParseErr Proj :=
-  parseParts p newProjection specs
+  match parseParts p newProjection specs with
+  | (p', .ok s) => (p', .ok s)
+  | (_, .error e) => (p, .error e)
 
 /-- `ProjectionParser.ParseWithUnit`. -/
 def Parser.parseWithUnit (p : Parser) (specs : List Spec) : Parser × Except ParseErr Proj :=
